@@ -31,8 +31,11 @@ MODES = {"disabled": ConcurrencyControlType.DISABLED, "task": ConcurrencyControl
 
 
 class Driver:
-    def __init__(self, family: str, mode: str, raise_on_diff: bool) -> None:
+    def __init__(self, family: str, mode: str, raise_on_diff: bool, big: bool = False) -> None:
         self.family, self.mode, self.raise_on_diff = family, mode, raise_on_diff
+        # how the abstract key values x, y are written: short strings, or strings long enough to be kept in the
+        # external client data store (the argument index then holds their reference keys)
+        self.conc = (lambda v: v * 1500) if big else (lambda v: v)
         self.clock = vclock.Clock()
         self.app = world.make_app(family)
         opts: dict[str, Any] = {"registration_concurrency": MODES[mode], "on_diff_non_key_args_raise": raise_on_diff}
@@ -47,7 +50,7 @@ class Driver:
         world.close_app(self.app)
 
     def _call(self, call: list, spelling: int) -> Any:
-        ka, kb, other = call
+        ka, kb, other = self.conc(call[0]), self.conc(call[1]), call[2]
         if spelling == 0:
             return self.task(ka, kb, other)
         if spelling == 1:
@@ -141,13 +144,13 @@ def run(ctx: Ctx) -> None:
                 raise tlc.MachineryError(f"Registration.tla violates {res.violated} in {cfg}")
             hs = histories(ctx, mode, rflag)
             for fam in world.FAMILIES:
-                for ops in hs:
-                    d = Driver(fam, mode, rflag)
+                for hk, ops in enumerate(hs):
+                    d = Driver(fam, mode, rflag, big=(hk % 3 == 2))
                     try:
                         traces.append(d.run(ops, random.Random(rng.randrange(1 << 30))))
                     finally:
                         d.close()
-                    meta.append({"family": fam, "mode": mode, "raise": rflag, "ops": ops})
+                    meta.append({"family": fam, "mode": mode, "raise": rflag, "ops": ops, "long_key_values": hk % 3 == 2})
     ctx.note(f"TLC Registration.tla x 8 configurations: {ctx.states} states, {ctx.transitions} transitions, no violation")
     verdicts, r = tlc.validate_traces("RegistrationTrace", "RegistrationTrace.cfg", traces, timeout=3000)
     ctx.traces += len(traces)
